@@ -28,13 +28,41 @@ with build.Workdir() as wd:
     r = run.regenerate(cfg, sizes)
     print('unsupported:', [u for u in r['unsupported']])
 " 2>&1 | grep -v conda
-cd coq
+"""
+COMPILE = r"""
+cd %(verif)s/coq
 timeout 300 coqc -Q theories CB -Q gen CBGen gen/Gen_effects%(sfx)s.v || { echo GEN-COMPILE-FAILED; exit 2; }
 if timeout 1800 coqc -Q theories CB -Q gen CBGen theories/Bridge_effects%(sfx)s.v > %(verif)s/coq/bridge_effects.log 2>&1; then echo BRIDGE-PASS; else echo BRIDGE-FAIL; fi
 """
 SFX = {"containers": "", "load": "_load", "ser": "_ser", "ref": "_ref", "copy": "_copy"}
 def regen(group):
-    return REGEN % {"verif": VERIF, "sfx": SFX[group]}
+    return (REGEN + COMPILE) % {"verif": VERIF, "sfx": SFX[group]}
+ALLG = ["containers", "load", "ser", "ref", "copy"]
+_BASE = {}
+def gen_text(group):
+    return open(os.path.join(VERIF, "coq", "gen", "Gen_effects%s.v" % SFX[group])).read()
+def baseline():
+    """the generated files of the unmodified library (an edit that leaves a file as it is cannot change its bridge)"""
+    if not _BASE:                     # called by main() on the clean tree, before any edit
+        sh(REGEN % {"verif": VERIF})
+        for g in ALLG:
+            _BASE[g] = gen_text(g)
+    return _BASE
+def regen_groups(groups):
+    """one translation, then the bridge of every group whose generated file differs from the baseline"""
+    base = baseline()
+    out = sh(REGEN % {"verif": VERIF})
+    verdicts = []
+    for g in groups:
+        if gen_text(g) == base[g]:
+            verdicts.append((g, "BRIDGE-PASS (generated file unchanged)", ""))
+            continue
+        o = sh(COMPILE % {"verif": VERIF, "sfx": SFX[g]})
+        log = ""
+        if "BRIDGE-FAIL" in o:
+            log = open(os.path.join(VERIF, "coq", "bridge_effects.log")).read()
+        verdicts.append((g, o, log))
+    return out, verdicts
 GLUE = ("src/cbor/internal/builder_callbacks.c", "src/cbor.c")
 SERF = ("src/cbor/serialization.c",)
 def group_of(subs, eid=""):
@@ -43,6 +71,8 @@ def group_of(subs, eid=""):
     if eid.startswith("copy-"):
         return "copy"
     files = [f for f, _, _, _ in subs]
+    if eid.startswith("load-"):
+        return "load"
     if any(f in SERF for f in files) or any(f == "PATCH" for f in files):
         return "ser"
     return "load" if any(f in GLUE for f in files) else "containers"
@@ -344,6 +374,17 @@ EDITS = [
  ("load-P3", "P", [(CL, "      goto error;\n    } else if (context.syntax_error) {", "      goto error;\n    }\n    if (context.syntax_error) {", 1),
                    (CL, "  if (source_size == 0) {", "  if (!source_size) {", 1)]),
  ("load-P4", "P", [(CL, LOAD_SWITCH, LOAD_IFS, 1)]),
+ # constructors through their thin wrappers (inlined from their current bodies) and back
+ ("load-RH4", "P", [("PATCH", "/tmp/harm3/out_H/RH-4/patch.diff", "", 0)], ["load"]),   # third round: false alarm before wrappers were inlined
+ ("load-P5", "P", [(BC, "  cbor_item_t* res = cbor_new_float2();\n  CHECK_RES(ctx, res);\n  cbor_set_float2(res, value);\n", "  cbor_item_t* res = cbor_build_float2(value);\n  CHECK_RES(ctx, res);\n", 1),
+                   (BC, "  cbor_item_t* res = cbor_new_float8();\n  CHECK_RES(ctx, res);\n  cbor_set_float8(res, value);\n  _cbor_builder_append(res, ctx);", "  cbor_item_t* res = cbor_build_float8(value);\n  if (res != NULL) {\n    _cbor_builder_append(res, ctx);\n    return;\n  }\n  ctx->creation_failed = true;", 1)]),
+ ("load-P6", "P", [(BC, "  cbor_item_t* res = cbor_new_int8();\n  CHECK_RES(ctx, res);\n  cbor_mark_uint(res);\n  cbor_set_uint8(res, value);\n", "  cbor_item_t* res = cbor_build_uint8(value);\n  CHECK_RES(ctx, res);\n", 1),
+                   (BC, "  cbor_item_t* res = cbor_new_int16();\n  CHECK_RES(ctx, res);\n  cbor_mark_negint(res);\n  cbor_set_uint16(res, value);\n", "  cbor_item_t* res = cbor_build_negint16(value);\n  CHECK_RES(ctx, res);\n", 1)]),
+ ("load-P7", "P", [(BC, "  cbor_item_t* res = cbor_build_bool(value);\n  CHECK_RES(ctx, res);\n", "  cbor_item_t* res = cbor_new_ctrl();\n  CHECK_RES(ctx, res);\n  cbor_set_bool(res, value);\n", 1)]),   # degrades: a constructor the plans do not mention
+ ("load-M10", "M", [(BC, "  cbor_item_t* res = cbor_new_float2();\n  CHECK_RES(ctx, res);\n  cbor_set_float2(res, value);\n", "  cbor_item_t* res = cbor_build_float4(value);\n  CHECK_RES(ctx, res);\n", 1)]),   # the wrong wrapper
+ ("load-M11", "M", [(BC, "  cbor_item_t* res = cbor_new_int16();\n  CHECK_RES(ctx, res);\n  cbor_mark_negint(res);\n  cbor_set_uint16(res, value);\n", "  cbor_item_t* res = cbor_build_uint16(value);\n  CHECK_RES(ctx, res);\n", 1)]),   # negative integer built unsigned
+ ("load-M12", "M", [("src/cbor/floats_ctrls.c", "  cbor_item_t* item = cbor_new_float2();\n  _CBOR_NOTNULL(item);\n  cbor_set_float2(item, value);", "  cbor_item_t* item = cbor_new_float2();\n  _CBOR_NOTNULL(item);", 1),
+                    ("PATCH", "/tmp/harm3/out_H/RH-4/patch.diff", "", 0)], ["load"]),   # an edit INSIDE the wrapper is seen through the inlining
  ("load-M1", "M", [(CL, "          result->error.code = CBOR_ERR_NOTENOUGHDATA;\n          goto error;", "          result->error.code = CBOR_ERR_MALFORMATED;\n          goto error;", 1)]),
  ("load-M2", "M", [(CL, "  result->error.position = result->read;", "  result->error.position = result->read + 1;", 1)]),
  ("load-M3", "M", [(CL, "    cbor_decref(&stack.top->item);\n    _cbor_stack_pop(&stack);", "    _cbor_stack_pop(&stack);\n    cbor_decref(&stack.top->item);", 1)]),
@@ -483,13 +524,23 @@ EDITS = [
  ("copy-M13", "M", [(CL, "      return _cbor_copy_int(item, true);", "      return _cbor_copy_int(item, false);", 1)]),
 ]
 
+HARM3 = "/tmp/harm3/out_%s/R%s-%d/patch.diff"
+# third round of independent harmless refactorings: every patch that touches a file the plan translator reads;
+# all five groups are regenerated, the bridges of the changed files must pass (or the function degrade)
+EDITS += [("h3-R%s%d" % (c, i), "P", [("PATCH", HARM3 % (c, c, i), "", 0)], ALLG)
+          for c, r in (("G", range(1, 9)), ("H", range(1, 9)), ("I", range(1, 9))) for i in r]
+
 def sh(cmd):
     return subprocess.run(cmd, shell=True, stdout=subprocess.PIPE, stderr=subprocess.STDOUT, text=True).stdout
 
 def main():
     only = sys.argv[1:]
     results = []
-    for eid, kind, subs in EDITS:
+    if any(len(e_) > 3 and (not only or any(e_[0].startswith(o) for o in only)) for e_ in EDITS):
+        sh("git -C %s checkout -- ." % REPO)
+        baseline()
+    for e_ in EDITS:
+        eid, kind, subs = e_[:3]
         if only and not any(eid.startswith(o) for o in only):
             continue
         sh("git -C %s checkout -- ." % REPO)
@@ -507,6 +558,26 @@ def main():
             open(p, "w").write(s.replace(old, new))
         if not okay:
             results.append((eid, kind, "edit-error")); continue
+        if len(e_) > 3:              # several groups: every bridge must pass (or the function degrade)
+            out, vs = regen_groups(e_[3])
+            bad = [(g, o, log) for g, o, log in vs if "BRIDGE-PASS" not in o]
+            uns = [l for l in out.split("\n") if l.startswith("unsupported:")]
+            where = ""
+            for g, o, log in bad:
+                m = re.search(r'line (\d+)', log)
+                src = open(os.path.join(VERIF, "coq", "theories", "Bridge_effects%s.v" % SFX[g])).read().split("\n")
+                nm = "?"
+                if m:
+                    for i in range(int(m.group(1)) - 1, -1, -1):
+                        if src[i].startswith("Lemma"):
+                            nm = src[i].split()[1]; break
+                where += "%s:%s " % (g, nm if "BRIDGE-FAIL" in o else "ERROR")
+            verdict = "PASS" if not bad else "FAIL"
+            changed = [g for g, o, _ in vs if "unchanged" not in o]
+            expected = (verdict == "PASS") if kind == "P" else (verdict == "FAIL")
+            print("%-12s %s -> %-5s %-34s changed: %s %s %s" % (eid, kind, verdict, where, changed, uns[0] if uns else "", "" if expected else "<<< UNEXPECTED"), flush=True)
+            results.append((eid, kind, verdict, where))
+            continue
         group = group_of(subs, eid)
         out = sh(regen(group))
         lines = [l for l in out.split("\n") if l.strip()]
